@@ -67,7 +67,7 @@ Qed.
 
 Lemma quiet_lift : forall e em s s' o, lift cfg_fixed e em s = Ok (s', o) -> quiet o.
 Proof.
-  intros e em s s' o H. unfold lift in H. destruct ((e_refs em =? 0) && negb (emb_busy e s)); simpl in H; [inversion H; reflexivity|].
+  intros e em s s' o H. unfold lift in H. cbn [fx22 cfg_fixed negb] in H. rewrite andb_false_r in H. cbv iota in H.
   match type of H with context [wake_calls e ?x ?l ?s1] => pose proof (quiet_wake_calls e x l s1) as Q; destruct (wake_calls e x l s1) end.
   inversion H; subst. exact Q.
 Qed.
